@@ -27,8 +27,14 @@ var Registry = map[string]RuleFunc{}
 
 // Properties maps property ids to the rule ids that decide them.
 var Properties = map[string][]string{
-	"C01": {"C01.a"},
+	"C01": {"C01.a", "C01.b", "C01.d", "C05.b"},
+	"C02": {"C02.a"},
 	"C03": {"C03.a"},
+	"C05": {"C02.a", "C05.b", "C05.c", "C01.d"},
+	"C06": {"C06.a", "C05.c", "C06.c"},
+	"C08": {"C08.a"},
+	"C11": {"C11.c", "C01.d"},
+	"C12": {"C12.b"},
 	"C13": {"C13.a", "C13.c"},
 }
 
